@@ -263,6 +263,8 @@ func runRunner(bin string, steps []map[string]any, timeout time.Duration, memLim
 	select {
 	case err := <-done:
 		if err != nil {
+			raceSeen = strings.Contains(errb.String(), "DATA RACE")
+			lastRunnerStderr = errb.String()
 			return nil, fmt.Errorf("runner died: %v: %s", err, firstLine(strings.TrimSpace(lastLines(errb.String(), 3))))
 		}
 	case <-time.After(timeout):
@@ -644,6 +646,10 @@ func confirmViolations(d *Driver, viols []Violation) {
 			ok, obs = judge(v.Replay.Judge, res, rerr)
 			if v.Replay.Judge.Note == "race" && raceSeen {
 				ok, obs = true, map[string]any{"race_detector": "DATA RACE reported", "result": obs}
+			} else if v.Replay.Judge.Note == "race" && rerr != nil {
+				if fe := runtimeFatal(lastRunnerStderr); fe != "" {
+					ok, obs = true, map[string]any{"runtime_fatal_error": fe}
+				}
 			}
 			replayMemo[string(keyRaw)] = struct {
 				ok  bool
@@ -705,6 +711,10 @@ func replayFile(path string) int {
 	ok, obs := judge(doc.Judge, res, rerr)
 	if doc.Judge.Note == "race" && raceSeen {
 		ok, obs = true, map[string]any{"race_detector": "DATA RACE reported", "result": obs}
+	} else if doc.Judge.Note == "race" && rerr != nil {
+		if fe := runtimeFatal(lastRunnerStderr); fe != "" {
+			ok, obs = true, map[string]any{"runtime_fatal_error": fe}
+		}
 	}
 	ob, _ := json.Marshal(obs)
 	fmt.Printf("observed: %s\n", ob)
@@ -757,4 +767,14 @@ func registryJudge(pre string, outs []any) bool {
 		}
 	}
 	return false
+}
+
+// runtimeFatal: the Go runtime's own verdict on a synchronisation error in a stress replay.
+func runtimeFatal(stderr string) string {
+	for _, l := range strings.Split(stderr, "\n") {
+		if strings.HasPrefix(l, "fatal error: sync:") || strings.HasPrefix(l, "fatal error: concurrent map") || strings.HasPrefix(l, "fatal error: all goroutines are asleep") {
+			return l
+		}
+	}
+	return ""
 }
